@@ -25,6 +25,14 @@ def run(tier: str, seed: int) -> Dict[str, Any]:
         keep = [pr for i, pr in enumerate(progs) if pr["p"]["variant"] != "base" or i % 7 == 0]
         import random
         progs = random.Random(seed).sample(keep, min(len(keep), 420))
+    else:
+        # thorough: every program of the base variant is C04's job; here every variant gets a large seeded sample
+        import random
+        rnd = random.Random(seed)
+        byv: Dict[str, list] = {}
+        for pr in progs:
+            byv.setdefault(pr["p"]["variant"], []).append(pr)
+        progs = [pr for v, lst in sorted(byv.items()) for pr in rnd.sample(lst, min(len(lst), 900))]
     with engine.Quiet():
         results = defprog.run_all(progs, {"determinism": False})
     viol: List[dict] = []
